@@ -764,6 +764,10 @@ fn case_history(case: &str) -> Option<Fail> {
                 if *r != *w {
                     return Some(Fail { case: format!("{case} step {step} op {op}"), expected: format!("fresh environment gives {}", show(&w)), actual: show(&r) });
                 }
+                let mut seen = std::collections::HashSet::new();
+                if let Some(e) = all_interned(&env, &r, &mut seen) {
+                    return Some(Fail { case: format!("{case} step {step} op {op}"), expected: "every node of a result is the environment's own shared copy".into(), actual: e });
+                }
                 let t = table(&r, &ids);
                 pool.push((r, t));
             }
@@ -1865,7 +1869,10 @@ fn tok_s(t: &T) -> String {
 
 /// case: a text.  Non-ASCII digits are outside the reference (skipped).
 fn case_lex(case: &str) -> Option<Fail> {
-    if case.chars().any(|c| c.is_numeric() && !c.is_ascii_digit()) {
+    // the reference reads letters and ASCII digits; for other numeric characters, combining marks, connector punctuation,
+    // joiners and the like (where regex `\\w` / `\\d` and the char predicates differ) the only requirement is: no panic
+    let plain = |c: char| c.is_ascii() || (c.is_alphabetic() && !c.is_numeric() && c.len_utf8() == 2);
+    if case.chars().any(|c| (c.is_numeric() && !c.is_ascii_digit()) || !plain(c)) {
         // the only requirement there: no panic
         tick();
         return match quiet(|| SymbolicBDD::tokenize(&mut case.as_bytes(), None).map(|_| ())) {
@@ -1921,7 +1928,7 @@ fn search_lex(budget: usize, seed: u64) -> Option<Fail> {
     }
     // all strings of up to 3 (thorough: 4) CHARACTERS over a character alphabet: what the lexeme alphabet cannot produce
     // (a lone quote / brace / apostrophe between arbitrary neighbours, control characters, mixed-script words and numbers)
-    let chars: Vec<char> = "ab_1 9'\"{}()[],#-!&|^*+=<>@;.:?/\\~$%\0\t\n\ré٣９Ωß".chars().collect();
+    let chars: Vec<char> = "ab_1 9'\"{}()[],#-!&|^*+=<>@;.:?/\\~$%\0\t\n\ré٣９Ωß\u{2167}\u{3007}\u{ff3f}\u{203f}\u{301}\u{200d}\u{bd}\u{feff}".chars().collect();
     for a in &chars {
         for b in &chars {
             if let Some(f) = case_lex(&format!("{a}{b}")) {
